@@ -16,6 +16,7 @@ from fiddle._src.experimental import serialization
 from vf import canon as C
 from vf import gen
 from vf.common import safe_repr
+from vt import strann
 from vt import kinds, rec, sigs, tags as vtags
 from vt.rec import Sentinel
 
@@ -44,7 +45,7 @@ MINIMUMS = {  # (tag_edits_on_transformed_copy added with the round-2 seeds)
 
 FNS = [kinds.node, kinds.node2, kinds.two, kinds.three, kinds.Base, kinds.Mid, kinds.target3,
        kinds.tagged_fn, kinds.tagged_pos_fn, kinds.DCTagged, kinds.posnode, kinds.PosInit,
-       sigs.g_a1_b2_va_k_vk, sigs.g_ab_c_va] + kinds.TAGGED_BLOCKS
+       sigs.g_a1_b2_va_k_vk, sigs.g_ab_c_va] + kinds.TAGGED_BLOCKS + [strann.str_tagged, strann.str_tagged_pos]
 LEAVES = [0, 1, 'a', None, True, (1, 2), 2.5, kinds.Color.RED, kinds.two]
 
 
